@@ -123,6 +123,13 @@ def ast():
     for items in out.values():
         normalize.normalise_items(items)
     _ast = out
+    if os.environ.get("VERIF_NO_INLINE") != "1":
+        import astlib
+
+        for fname, items in out.items():
+            if fname.startswith("program_structure_tests") or "/tests/" in fname or fname.endswith("_tests.rs"):
+                continue
+            astlib.inline_unknown_helpers(items)
     _ast_meta.update({"files": len(out), "errors": errors, "wall_s": round(time.time() - t0, 2)})
     return out
 
